@@ -867,7 +867,8 @@ class t2listing(object):
 
     def next_tablename(self, tablename):
         """Returns name of table after the specified one, or None if it is the last."""
-        if tablename is None: return self._tablenames[0]
+        if tablename is None:
+            return self._tablenames[0] if self._tablenames else None
         i = self._tablenames.index(tablename)
         if i < len(self._tablenames)-1: return self._tablenames[i+1]
         else: return None
